@@ -312,10 +312,14 @@ pub fn gen_program(prop: &str, seed: u64, index: u64) -> Program {
             for _ in 0..writers {
                 let k = 1 + g.below(4);
                 let mut ops: Vec<Op> = (0..k)
-                    .map(|_| match g.below(8) {
+                    .map(|_| match g.below(12) {
                         0..=4 => Op::Set(val(&mut g)),
                         5 => Op::Update(1 + g.below(5) as u64),
                         6 => Op::SetIfNotEq(val(&mut g)),
+                        7 => Op::SetIfHashNotEq(val(&mut g)),
+                        8 => Op::Take,
+                        9 => Op::UpdateIf(1 + g.below(5) as u64, g.chance(2, 3)),
+                        10 if !unique => Op::WriteRmw(1 + g.below(5) as u64),
                         _ => Op::Yield,
                     })
                     .collect();
